@@ -79,6 +79,10 @@ theorem wp_bind_copyInto {α β : Type} {dst src : List α} {a b : BitVec 64} {f
   simp only [Go.copy, List.length_append, List.length_take, List.length_drop]
   omega
 
+theorem wp_bind_makeSlice {α β : Type} {z : α} {n : BitVec 64} {f : List α → Res β} {Q : β → Prop}
+    (h : n.toNat < 2 ^ 63) (hk : ∀ ys : List α, ys.length = n.toNat → wp (f ys) Q) : wp (Go.makeSlice z n >>= f) Q := by
+  unfold Go.makeSlice; rw [if_pos h]; exact hk _ (by simp)
+
 /-- `c && e` where evaluating `e` may panic: `e` is only evaluated under `c`; afterwards all that is kept
 about the value is that it implies `c` -/
 theorem wp_bind_and {β : Type} {c : Bool} {y : Res Bool} {f : Bool → Res β} {Q : β → Prop}
@@ -275,6 +279,7 @@ macro "wp_step0" : tactic => `(tactic| first
   | with_reducible refine wp_bind_setIdx ?_ (fun _ _ => ?_)
   | with_reducible refine wp_bind_slice ?_ (fun _ _ => ?_)
   | with_reducible refine wp_bind_copyInto ?_ (fun _ _ => ?_)
+  | with_reducible refine wp_bind_makeSlice ?_ (fun _ _ => ?_)
   | with_reducible refine wp_bind_encodeRuneAt (fun _ _ _ _ => ?_) (fun _ _ _ _ _ _ => ?_)
   | with_reducible refine wp_bind_and (fun _ => ?_) (fun _ _ => ?_)
   | with_reducible refine wp_bind_or (fun _ => ?_) (fun _ _ => ?_)
@@ -321,7 +326,7 @@ macro_rules | `(tactic| bv_len) => `(tactic| (
   (try simp_all only [Bool.not_eq_true', Bool.and_eq_true, Bool.or_eq_true, Bool.not_eq_true, Bool.true_eq_false, Bool.false_eq_true,
     false_implies, true_implies, implies_true, forall_const, not_false_eq_true, not_true_eq_false, Bool.not_eq_false',
     and_true, true_and, and_self, and_false, false_and, or_true, true_or, or_false, false_or, eq_self_iff_true, ne_eq])
-  <;> (try simp only [Go.len, make_length, copy_length, BitVec.slt_eq_decide, BitVec.sle_eq_decide, BitVec.toInt_eq_toNat_cond,
+  <;> (try simp only [Go.len, GoStd.runeCount, GoStd.runes, List.length_map, make_length, copy_length, BitVec.slt_eq_decide, BitVec.sle_eq_decide, BitVec.toInt_eq_toNat_cond,
     decide_eq_true_eq, decide_eq_false_iff_not, List.length_cons, List.length_nil, List.length_append, List.length_replicate] at *)
   <;> bv_omega))
 
